@@ -73,7 +73,14 @@ def whole_upload_fidelity(ctx, n):
             elif kind == "VEVENT" and any(c[2] == "ovr" and c[1] == u for c in comps):
                 extra = "RRULE:FREQ=WEEKLY;COUNT=4\r\n"
             texts.append(comp_text(kind, u, s, extra))
-        body = "".join(texts) if card else "BEGIN:VCALENDAR\r\nPRODID:-//v//EN\r\nVERSION:2.0\r\n" + "".join(texts) + "END:VCALENDAR\r\n"
+        wrap = lambda ts: "BEGIN:VCALENDAR\r\nPRODID:-//v//EN\r\nVERSION:2.0\r\n" + "".join(ts) + "END:VCALENDAR\r\n"      # noqa: E731
+        body = "".join(texts) if card else wrap(texts)
+        if not card and len(texts) >= 2 and rng.random() < 0.3:
+            # the same components spread over SEVERAL VCALENDAR objects in one body (an export of several calendars glued
+            # together): whatever the server makes of it, UIDs must stay unique per collection and one UID per object
+            j = rng.randrange(1, len(texts))
+            body = wrap(texts[:j]) + wrap(texts[j:])
+            ctx.count("whole-upload:several-vcalendar-objects")
         with impl.Server(conf={"auth": {"type": "none"}, "rights": {"type": "authenticated"}}) as srv:
             srv.mkcol("/u/")
             before = impl.tree_dump(srv.folder, skip_cache=True)
